@@ -91,15 +91,30 @@ def logX (Lx _Ly _Lz : Nat) : List Op :=
 def logZ (_Lx Ly Lz : Nat) : List Op :=
   [dictOf ((pyRange2 1 (2*Lz)).flatMap fun z => (pyRange2 1 (2*Ly)).map fun y => [1, y, z]) Pauli.Z]
 
-/-- `get_deformation(location, deformation_name, deformation_axis)` (`none` = ValueError),
+/-- body of `get_deformation` for a given value of `deformation_axis` (`none` = ValueError),
     checks in the order of the code -/
-def getDeformation (Lx Ly Lz : Nat) (name axis : String) (loc : Coord) : Option PauliMap :=
+def getDeformationAt (Lx Ly Lz : Nat) (name axis : String) (loc : Coord) : Option PauliMap :=
   if !(["x", "y", "z"].contains axis) then none
   else if name == "XZZX" then
     match qubitAxis Lx Ly Lz loc with
     | none => none
     | some a => some (if a == axis then PauliMap.swapXZ else PauliMap.id)
   else none
+
+/-- `get_deformation(location, deformation_name, deformation_axis='z')` (`none` = ValueError);
+    `axis = none`: the caller does not pass `deformation_axis`, the signature default `'z'` applies -/
+def getDeformation (Lx Ly Lz : Nat) (name : String) (axis : Option String) (loc : Coord) :
+    Option PauliMap :=
+  getDeformationAt Lx Ly Lz name (axis.getD "z") loc
+
+/-- the explicit independent family of `n − k` generators of the rank clause
+    (`C01RotatedPlanar3DCode.generators_independent`, proved in `Proofs/LatRotatedPlanar3DCodeRank.lean`):
+    all vertices, the horizontal faces of the bottom layer `z = 1`, all vertical faces; printed by the
+    driver op `rankfamily` and evaluated on the implementation's parity-check matrix on every run -/
+def selStabs (Lx Ly Lz : Nat) : List Coord :=
+  grid3 (pyRange2 2 (2*Lx)) (pyRange2 0 (2*Ly+1)) (pyRange2 1 (2*Lz)) (fun x y _ => (x + y) % 4 == 2) ++
+  grid3 (pyRange2 0 (2*Lx+1)) (pyRange2 2 (2*Ly)) (pyRange2 1 2) (fun x y _ => (x + y) % 4 == 0) ++
+  grid3 (pyRange2 1 (2*Lx+1)) (pyRange2 1 (2*Ly)) (pyRange2 2 (2*Lz)) (fun _ _ _ => true)
 
 def lattice (Lx Ly Lz : Nat) : Lattice :=
   { qubits := qubits Lx Ly Lz, stabs := stabs Lx Ly Lz, getStab := getStab Lx Ly Lz,
